@@ -161,6 +161,12 @@ class Report(object):
       "wall_s": round(time.time() - self.t0, 3),
       "violations": len(seen),
     }
+    cov = ev["coverage"]
+    if self.level == "proof" and not (cov.get("obligations", 0) >= 1 and cov.get("discharged", 0) >= 1):
+      # nothing was generated/discharged on this tree (e.g. the code left the supported subset):
+      # do not present proof-style counts; the exploration-style keys of the bounded twin remain
+      cov["obligations_generated"] = cov.pop("obligations", 0)
+      cov["obligations_discharged"] = cov.pop("discharged", 0)
     ev["coverage"]["known_findings_matched"] = [
       {"id": e["id"], "what": e["what"], "count": e.get("_count", 0)} for e in self.known_hits]
     ev["coverage"]["undecided"] = list(self.undecided)
@@ -180,7 +186,9 @@ class Report(object):
         self.prop, str(e).splitlines()[0]))
     with open(path, "w") as f:
       json.dump(ev, f, indent=1, sort_keys=True)
-    if self.crashed or not ok_schema:
+    if seen and any(has_input for _n, _p, has_input in self.violations):
+      code = EXIT_VIOLATION        # a failing input replayed on the real code outranks the rest
+    elif self.crashed or not ok_schema:
       code = EXIT_CRASH
     elif seen:
       code = EXIT_VIOLATION
